@@ -22,7 +22,7 @@ EXPLANATION = (
     "residuals, the augmenting amount is not changed inside the augmentation loop, cancellation plus forward push add "
     "up to the augmenting amount, and the flow value grows by it exactly once per augmentation; (O4) the returned "
     "dictionary holds exactly the positive entries of the flow map the loops wrote and the objective is the "
-    "accumulated value; parallel arcs are pooled on input. NOT decided: conservation/capacity as numeric facts, "
+    "accumulated value; parallel arcs are pooled on input; (O5) the only state the path search reads that changes between searches is the flow map, it enqueues under exactly `unvisited and residual > 0`, and every input arc enters the residual network. NOT decided: conservation/capacity as numeric facts, "
     "max-flow = min-cut."
 )
 
@@ -89,9 +89,54 @@ def run(ctx: Ctx):
     t = ast.unparse(bfs.node)
     ctx.ob("C08-O2", "R21 search discipline", bfs, "search follows only arcs with positive residual to unvisited nodes, marks on enqueue, FIFO", "residual > 0" in t and "not in visited" in t and "visited.add(" in t and "popleft()" in t, "", node=bfs.node)
 
+    # O5 the search is a function of the current residual network only; every input arc enters that network
+    from sa.guards import GuardView
+
+    bound = {a.arg for a in bfs.node.args.args} | {n.id for n in ast.walk(bfs.node) if isinstance(n, ast.Name) and isinstance(n.ctx, ast.Store)}
+    free = {n.id for n in ast.walk(bfs.node) if isinstance(n, ast.Name) and isinstance(n.ctx, ast.Load)} - bound
+    outer_locals = {n.id for n in own_nodes(f.node) if isinstance(n, ast.Name) and isinstance(n.ctx, ast.Store)} | set(f.params)
+
+    def base(e):
+        while isinstance(e, (ast.Subscript, ast.Attribute)):
+            e = e.value
+        return e.id if isinstance(e, ast.Name) else None
+
+    def mutated(nodes):
+        out = set()
+        for n in nodes:
+            if isinstance(n, (ast.Assign, ast.AugAssign, ast.AnnAssign)):
+                for t in n.targets if isinstance(n, ast.Assign) else [n.target]:
+                    for e in t.elts if isinstance(t, ast.Tuple) else [t]:
+                        out.add(base(e))
+            elif isinstance(n, ast.Call) and isinstance(n.func, ast.Attribute) and n.func.attr in ("add", "append", "update", "pop", "remove", "discard", "clear", "extend", "insert", "setdefault", "popleft", "appendleft"):
+                out.add(base(n.func.value))
+        return out - {None}
+
+    loopw = [n for n in own_nodes(f.node) if isinstance(n, ast.While) and any(isinstance(c, ast.Call) and ast.unparse(c.func) == "bfs" for c in ast.walk(n.test))]
+    changing = mutated(ast.walk(bfs.node)) | (mutated(ast.walk(loopw[0])) if loopw else set())
+    state = sorted(((free & outer_locals) & changing) - {"flow"})
+    ctx.ob("C08-O5", "R27 WRITE-OWNERSHIP", bfs, "the only thing the path search reads that changes between searches is the flow map", not state, f"also depends on {state}, which is updated during the searches: state carried from one search to the next can hide an augmenting path of the current residual network, and 'no path found' is what certifies the maximum", node=bfs.node)
+    bcfg = cfg_of(bfs.node)
+    bgv = GuardView(bcfg)
+    enq = [n for n in own_nodes(bfs.node) if isinstance(n, ast.Call) and ast.unparse(n.func) == "queue.append"]
+    ctx.floor("enqueue sites in max_flow.bfs", len(enq), 1)
+    for e in enq:
+        at = {a for a in bgv.guard_atoms(bcfg.stmt_node_containing(e), stable_only=False, after_loops=False)}
+        from sa.guards import atom_of
+
+        want_at = {atom_of(f"{b} not in visited"), atom_of("residual > 0")}
+        extra = sorted(a for a in at if a not in want_at and not a.startswith("IN-LOOP:") and a not in ("T:queue", atom_of("node != sink")))
+        ctx.ob("C08-O5", "R21 search discipline", bfs, "a neighbour is enqueued under exactly `unvisited and residual > 0`", want_at <= at and not extra, f"guards {sorted(at)}", node=e)
+    capw = [n for n in own_nodes(f.node) if isinstance(n, ast.AugAssign) and ast.unparse(n.target) == "capacity[u][v]"]
+    fcfg = cfg_of(f.node)
+    fgv = GuardView(fcfg)
+    for cw in capw:
+        at = {a for a in fgv.guard_atoms(fcfg.node_of(cw), stable_only=False, after_loops=False) if not a.startswith("IN-LOOP:")}
+        ctx.ob("C08-O5", "R12 NO-CARDINALITY-CUTOFF", f, "every input arc enters the residual network (the construction loop is unconditional)", not at, f"arcs are filtered under {sorted(at)}", node=cw)
+
     # O3 loops
-    main = [n for n in own_nodes(f.node) if isinstance(n, ast.While)]
-    ctx.require(len(main) == 1, "augmentation loop not found")
+    main = [n for n in own_nodes(f.node) if isinstance(n, ast.While) and any(isinstance(c, ast.Call) and ast.unparse(c.func) == "bfs" for c in ast.walk(n.test))]
+    ctx.require(len(main) == 1, "augmentation loop `while ... bfs()` not found")
     w = main[0]
     pair_loops = [n for n in w.body if isinstance(n, ast.For)]
     ctx.ob("C08-O3", "R30 ACCUMULATOR-PAIRING", f, "bottleneck loop and augmentation loop iterate the same pair sequence of the path", len(pair_loops) == 2 and ast.unparse(pair_loops[0].iter) == ast.unparse(pair_loops[1].iter) == "zip(path, path[1:])" and ast.unparse(pair_loops[0].target) == ast.unparse(pair_loops[1].target), "", node=w)
@@ -172,6 +217,19 @@ def _v_no_cancel(tree):
     M.replace_stmt(g, lambda s: isinstance(s, ast.If) and M.src_is(s.test, "flow[v][u] > 0"), M.stmts("flow[u][v] += path_flow"))
 
 
+def _v_dead_end_memory(tree):
+    g = M.find_func(tree, "max_flow")
+    M.replace_stmt(g, lambda s: isinstance(s, ast.FunctionDef) and s.name == "bfs", lambda s: M.stmts("dead_ends = set()") + [s])
+    b = M.find_func(tree, "max_flow.bfs")
+    M.replace_stmt(b, lambda s: isinstance(s, ast.Assign) and M.src_has(s.targets[0], "residual"), lambda s: M.stmts("if neighbor in dead_ends or neighbor in path:\n    continue") + [s])
+
+
+def _v_prune_unreachable(tree):
+    g = M.find_func(tree, "max_flow")
+    M.replace_stmt(g, lambda s: isinstance(s, ast.For) and M.src_is(s.iter, "graph"), lambda s: M.stmts("reachable = {source}\nstack = [source]\nwhile stack:\n    u = stack.pop()\n    for v, cap, *_ in graph.get(u, ()):\n        if v in reachable:\n            continue\n        reachable.add(v)\n        if cap > 0:\n            stack.append(v)") + [s])
+    M.replace_stmt(g, lambda s: isinstance(s, ast.For) and M.src_is(s.iter, "graph[u]"), lambda s: M.stmts("if u not in reachable:\n    continue") + [s])
+
+
 def _t_reformat(tree):
     pass
 
@@ -192,6 +250,8 @@ VARIANTS = [
     M.Variant("parallel arcs overwrite instead of pooling", FL, _v_capacity_overwrite, "C08-O4"),
     M.Variant("zero entries kept in the flow dictionary", FL, _v_keep_zero, "C08-O4"),
     M.Variant("augmentation never cancels reverse flow", FL, _v_no_cancel, "C08-O3"),
+    M.Variant("dead-end set remembered from one search to the next (seed C08-D)", FL, _v_dead_end_memory, "C08-O5"),
+    M.Variant("arcs pruned by a source-reachability pre-pass that stops at zero-capacity arcs (seed C08-C)", FL, _v_prune_unreachable, "C08-O5"),
     M.Variant("twin: reformat", FL, _t_reformat, None),
     M.Variant("twin: explicit symmetric adjacency sets iterated by the search", FL, _t_adj_sets, None),
 ]
